@@ -129,7 +129,7 @@ LFRewrite(st, content) ==
              s1 == [st.slots EXCEPT ![i] = D]
              j  == FirstFreeFrom(s1, Home[LF], 0)
          IN [slots  |-> [s1 EXCEPT ![j] = Occ(LF, b)],
-             blocks |-> [st.blocks EXCEPT ![b] = [tok |-> content, pos |-> st.cursor, z |-> FALSE, cmp |-> FALSE, kn |-> ""]],
+             blocks |-> [st.blocks EXCEPT ![b] = [tok |-> content, pos |-> st.cursor, z |-> FALSE, cmp |-> FALSE, big |-> FALSE, kn |-> ""]],
              cursor |-> st.cursor + FU]
 LFAdd(st, n) == IF ~vlf \/ SlotOf(st.slots, LF) = {} THEN st ELSE LFRewrite(st, LFContent(st.slots, st.blocks) \cup {n})
 \* deviation: update_listfile appends the name unless `content.contains(name)` - a substring test,
@@ -146,14 +146,14 @@ StartNames  == InitSeq \o (IF HasLF0 THEN <<LF>> ELSE <<>>) \o (IF HasAT0 THEN <
 StartBlocks == [k \in 1..Len(StartNames) |->
                    [tok |-> IF StartNames[k] = LF THEN {InitSeq[j] : j \in 1..Len(InitSeq)}
                             ELSE IF StartNames[k] = AT THEN "attrs" ELSE InitTok[StartNames[k]],
-                    pos |-> (k - 1) * FU, z |-> StartNames[k] \notin InitRaw, cmp |-> StartNames[k] \notin InitRaw, kn |-> ""]]
+                    pos |-> (k - 1) * FU, z |-> StartNames[k] \notin InitRaw, cmp |-> StartNames[k] \notin InitRaw, big |-> FALSE, kn |-> ""]]
 StartSlots  == BuildSlots([i \in Slots |-> E], StartNames, 1)
 \* slk: alignment slack behind the block table of this file; cn: block count when the file was produced
 \* by compact() (-1: it was not)
 StartImage  == [slots |-> StartSlots, blocks |-> StartBlocks, tpos |-> Len(StartNames) * FU, dmg |-> {}, ok |-> TRUE, lf |-> HasLF0,
                 slk |-> Slack, cn |-> -1]
 
-NoOp == [k |-> "none", n |-> "", m |-> "", c |-> None, rep |-> FALSE, enc |-> "none", comp |-> "none", blk |-> 0, fa |-> -1]
+NoOp == [k |-> "none", n |-> "", m |-> "", c |-> None, rep |-> FALSE, enc |-> "none", comp |-> "none", big |-> FALSE, blk |-> 0, fa |-> -1]
 
 HInit == /\ ddisk = StartImage
          /\ hslots = StartSlots /\ hblocks = StartBlocks /\ hcursor = 0
@@ -233,16 +233,18 @@ FindStep == /\ pc \in FindPcs /\ FindOutcome = -2
             /\ pidx' = (pidx + 1) % H /\ pcnt' = pcnt + 1
             /\ UNCHANGED <<hslots, hblocks, hcursor, ddisk, wopen, wdirty, vlf, stale, staleMap, pc, opr, hsnap, lastres, devs, vcalls>>
 
-Begin(kind, n, m, c, rep, enc, comp) ==
+Begin(kind, n, m, c, rep, enc, comp, big) ==
     /\ wopen /\ pc = "idle" /\ NewCall
-    /\ opr' = [k |-> kind, n |-> n, m |-> m, c |-> c, rep |-> rep, enc |-> enc, comp |-> comp, blk |-> 0, fa |-> -1]
+    /\ opr' = [k |-> kind, n |-> n, m |-> m, c |-> c, rep |-> rep, enc |-> enc, comp |-> comp, big |-> big, blk |-> 0, fa |-> -1]
     /\ pc' = CASE kind = "add" -> "add_find" [] kind = "remove" -> "rm_find" [] OTHER -> "rn_find_a"
     /\ pidx' = Home[n] /\ pcnt' = 0 /\ hsnap' = SessView
     /\ UNCHANGED <<hslots, hblocks, hcursor, ddisk, wopen, wdirty, vlf, stale, staleMap, lastres, devs>>
 
-BeginAdd(n, c, rep, enc, comp) == Begin("add", n, n, c, rep, enc, comp)
-BeginRemove(n)                 == Begin("remove", n, n, None, FALSE, "none", "none")
-BeginRename(a, b)              == Begin("rename", a, b, None, FALSE, "none", "none")
+\* big: the content is larger than one sector (the builder used by compact() stores such a file sectored and
+\* flags it COMPRESS even when its sectors are raw)
+BeginAdd(n, c, rep, enc, comp, big) == Begin("add", n, n, c, rep, enc, comp, big)
+BeginRemove(n)                      == Begin("remove", n, n, None, FALSE, "none", "none", FALSE)
+BeginRename(a, b)                   == Begin("rename", a, b, None, FALSE, "none", "none", FALSE)
 
 Fail(res) == /\ Finish(res)
              /\ UNCHANGED <<hslots, hblocks, hcursor, ddisk, wopen, wdirty, vlf, stale, staleMap, hsnap, devs, vcalls>>
@@ -256,7 +258,7 @@ AddAppendWith(keyname, dv) ==
     LET f == FindOutcome IN
     /\ pc = "add_find" /\ f # -2 /\ (f >= 0 => opr.rep)
     /\ hslots' = IF f >= 0 THEN [hslots EXCEPT ![f] = D] ELSE hslots
-    /\ hblocks' = Append(hblocks, [tok |-> opr.c, pos |-> hcursor, z |-> (opr.comp # "none" \/ opr.enc # "none"), cmp |-> opr.comp # "none", kn |-> keyname])
+    /\ hblocks' = Append(hblocks, [tok |-> opr.c, pos |-> hcursor, z |-> (opr.comp # "none" \/ opr.enc # "none"), cmp |-> opr.comp # "none", big |-> opr.big, kn |-> keyname])
     /\ devs' = devs \cup dv
     /\ hcursor' = hcursor + FU
     /\ opr' = [opr EXCEPT !.blk = Len(hblocks) + 1]
@@ -339,16 +341,19 @@ Rebuilt(keep, zof, slk) ==
         all    == Append(names, LF)
         blocks == [k \in 1..Len(all) |-> [tok |-> IF all[k] = LF THEN {names[j] : j \in 1..Len(names)} ELSE keep[all[k]],
                                           pos |-> (k - 1) * FU,
-                                          z   |-> IF all[k] = LF THEN TRUE ELSE zof[all[k]].z,
-                                          cmp |-> IF all[k] = LF THEN TRUE ELSE zof[all[k]].c,
+                                          z   |-> IF all[k] = LF THEN TRUE ELSE (zof[all[k]].z \/ zof[all[k]].b),
+                                          big |-> IF all[k] = LF THEN FALSE ELSE zof[all[k]].b,
+                                          \* (a sectored file starts with a sector-offset table: garbage does not decode)
+                                          cmp |-> IF all[k] = LF THEN TRUE ELSE (zof[all[k]].c \/ zof[all[k]].b),
                                           \* the builder encrypts under the name it is given
                                           kn  |-> IF all[k] # LF /\ zof[all[k]].e THEN all[k] ELSE ""]]
     IN [slots |-> BuildSlots([i \in Slots |-> E], all, 1), blocks |-> blocks, tpos |-> Len(all) * FU,
         dmg |-> {}, ok |-> TRUE, lf |-> TRUE, slk |-> slk, cn |-> Len(all)]
 \* the session's block of a live name
 BlkOf(n) == hslots[CHOOSE i \in SlotOf(hslots, n) : TRUE].blk
-ZOf == [n \in UNames |-> IF SlotOf(hslots, n) = {} THEN [z |-> FALSE, c |-> FALSE, e |-> FALSE]
-                         ELSE [z |-> hblocks[BlkOf(n)].z, c |-> hblocks[BlkOf(n)].cmp, e |-> hblocks[BlkOf(n)].kn # ""]]
+ZOf == [n \in UNames |-> IF SlotOf(hslots, n) = {} THEN [z |-> FALSE, c |-> FALSE, e |-> FALSE, b |-> FALSE]
+                         ELSE [z |-> hblocks[BlkOf(n)].z, c |-> hblocks[BlkOf(n)].cmp, e |-> hblocks[BlkOf(n)].kn # "",
+                               b |-> hblocks[BlkOf(n)].big]]
 CompactTo(keep, slk) ==
     LET img == Rebuilt(keep, ZOf, slk) IN
     /\ wopen /\ pc = "idle" /\ NewCall
@@ -394,6 +399,17 @@ CompactV3 ==
     /\ Ver >= 3
     /\ CompactTo([n \in UNames |-> IF n \in ListedNow THEN SessView[n] ELSE None], 0)
     /\ devs' = devs \cup (IF wdirty THEN {"v34flush"} ELSE {}) \cup (IF ~vlf THEN {"nolistfile"} ELSE {})
+
+(* ---------------------------------- reading inside the session ----------------------------------- *)
+\* MutableArchive::read_file(n) while the session is open.  Designed: the session's view.
+SessionReadDesigned(n) == SessView[n]
+\* deviation (as coded): read_current_file decodes only raw blocks itself; a compressed or encrypted
+\* block, and a name the session's tables do not hold, is handed to the Archive object opened at open()
+\* / after compact(): a file added here is "not found", a replaced one returns its old content, a
+\* removed one is still readable
+SessionReadStale(n) == IF SlotOf(hslots, n) = {} THEN staleMap[n]
+                       ELSE IF hblocks[BlkOf(n)].z THEN staleMap[n]
+                       ELSE TokAt(hblocks, ddisk.dmg, BlkOf(n), n)
 
 (* ---------------------------------- the machines --------------------------------------------- *)
 \* steps shared by both
